@@ -8,4 +8,5 @@ let lookup (p : string) : Model.val0 -> Model.val0 =
   | "C20" -> Model.run_C20
   | "C11" -> Model.run_C11
   | "C14" -> Model.run_C14
+  | "C10" -> Model.run_C10
   | _ -> failwith ("unknown property " ^ p)
